@@ -212,8 +212,55 @@ let run_win toks =
     Buffer.contents buf
   | _ -> failwith "bad win case"
 
-(* ---- SRV ---- *)
 let fp_text (b : n list) : string = Printf.sprintf "%d:%016Lx" (List.length b) (fnv_extend fnv_init b)
+
+(* ---- W-PAIR ---- *)
+let parse_pair_faults (s : string) : (n * fault) list =
+  if s = "-" then [] else
+  List.map (fun t -> match String.split_on_char ':' t with
+    | [i; k] -> (n_of_dec i, (match k with "x" -> NfDrop | "d" -> NfDup | "h" -> NfHold | _ -> failwith "bad fault"))
+    | _ -> failwith "bad fault") (String.split_on_char ',' s)
+
+let run_pair toks =
+  match toks with
+  | [_; blk; ws; tmo; rep_s; rep_r; fspec; fsr; frs] ->
+    let sc = { s_blk = n_of_dec blk; s_ws = n_of_dec ws; s_tmo = n_of_dec tmo; s_rep = n_of_dec rep_s; s_check = false; s_fails = [] } in
+    let rc = { r_blk = n_of_dec blk; r_ws = n_of_dec ws; r_tmo = n_of_dec tmo; r_rep = n_of_dec rep_r; r_clean = true; r_fails = [] } in
+    let f1 = parse_pair_faults fsr and f2 = parse_pair_faults frs in
+    let p = ref (pair_init sc rc f1 (file_of_spec fspec)) in
+    let steps = ref 0 and go = ref true in
+    while !go && !steps < 3000000 do
+      (match pair_step sc rc f1 f2 !p with Some p' -> p := p'; incr steps | None -> go := false)
+    done;
+    let so = match !p.p_s.s_phase with SDone o -> outcome_text o | _ -> "runaway" in
+    let ro = match !p.p_r.r_phase with RDone o -> outcome_text o | _ -> "runaway" in
+    let file = match recv_final_file rc !p.p_r with None -> "absent" | Some w -> fp_text (List.concat (List.rev w)) in
+    Printf.sprintf "s=%s r=%s file=%s nsr=%s nrs=%s" so ro file (dec_of_n !p.p_sr.ch_n) (dec_of_n !p.p_rs.ch_n)
+  | _ -> failwith "bad pair case"
+
+(* C04 on the implementation's result *)
+let mon_pair prop case impl =
+  match words case, words impl with
+  | [_; _; _; _; rep_s; rep_r; fspec; fsr; frs], [s; r; file; _; nrs] ->
+    let nf x = if x = "-" then 0 else List.length (String.split_on_char ',' x) in
+    let total = nf fsr + nf frs in
+    let want = fp_text (file_of_spec fspec) in
+    let s_ok = (s = "s=ok") and r_ok = (r = "r=ok") and f_ok = (file = "file=" ^ want) in
+    let nrs = int_of_string (String.sub nrs 4 (String.length nrs - 4)) in
+    if r_ok && not f_ok then "fail:completed-upload-with-wrong-content"
+    else if s_ok && not r_ok then "fail:sender-succeeded-but-receiver-did-not"
+    else if total <= 1 then begin
+      (* a single fault never fails a transfer - except the loss of the very last ACK, which only the sender notices *)
+      let last_ack_lost = rep_r = "1" && (match String.split_on_char ':' frs with
+        | [i; k] when k <> "d" -> int_of_string i = nrs - 1
+        | _ -> false) in
+      if not r_ok then "fail:single-fault-failed-the-receiving-side"
+      else if not s_ok && not last_ack_lost then "fail:single-fault-failed-the-sending-side"
+      else "pass"
+    end else "pass"
+  | _ -> "fail:unparsable"
+
+(* ---- SRV ---- *)
 
 let spec_content (c : string) : n list =
   if c = "-" then [] else if c.[0] = 'P' then file_of_spec (String.map (fun ch -> if ch = '_' then ':' else ch) c) else bytes_of_hex c
@@ -858,6 +905,7 @@ let run_mon (line : string) : string =
              | "send" :: _ -> mon_send prop case impl
              | "recv" :: _ -> mon_recv prop case impl
              | "srv" :: _ -> mon_srv prop case impl
+             | "pair" :: _ -> if prop = "C04" || prop = "C14" || prop = "C16" then mon_pair prop case impl else "skip"
              | "cfgperm" :: _ -> if prop = "C17" then (match mon_cfgperm impl with "pass" -> mon_cfg_dup case impl | v -> v)
                                  else if prop = "C16" then mon_cfg_dup case impl else "skip"
              | "cfg" :: _ -> if prop = "C17" || prop = "C16" then mon_cfg_dup case impl else "skip"
@@ -875,6 +923,7 @@ let run_line (line : string) : string =
   | "recv" :: _ -> run_recv toks
   | "win" :: _ -> run_win toks
   | "srv" :: _ -> run_srv toks
+  | "pair" :: _ -> run_pair toks
   | "cfg" :: _ -> run_cfg toks
   | "cfgperm" :: _ -> run_cfgperm toks
   | "ccfg" :: _ -> run_ccfg toks
